@@ -1,15 +1,20 @@
 /-
 C02 — Write-then-read round trip preserves entries in every format.
 
-What is proved here (models of `LA.Model.Codec` / `LA.Model.Pax`, tied to the C by the `codec` engine):
-  * `decode_encode_ustar` — an entry ustar can represent is accepted with ARCHIVE_OK and the
-    512 bytes decode (checksum verified) to `norm .ustar e`;
-  * `stream_roundtrip_ustar` — a whole archive: headers, bodies written in *any* chunking
-    (truncated to the declared size, zero filled, padded to 512), two zero blocks, any amount
-    of block padding, reads back as the accepted entries in order;
-  * `pax_len_fixed_point` — the self-referential decimal length prefix of a pax record.
-For the formats without a byte model only the spec-level `representable`/`norm` exist and the
-engine checks the real writers/readers against them (a differential, not a proof).
+What is proved here (models of `LA.Model.Codec` / `LA.Model.Ar` / `LA.Model.Pax`, each tied to the C byte for
+byte by the `codec` engine):
+  * `decode_encode_ustar`, `stream_roundtrip_ustar` — ustar header and whole archive (any chunking, padding);
+  * `readback_fixed_point_ustar` — decode a header, write the decoded record again, decode: the same record;
+  * `stream_roundtrip_newc`, `stream_roundtrip_odc` (+ `_representable` forms, `representable_{newc,odc}_accepted`)
+    — whole cpio archives: headers, name / body padding, symlink bodies, synthesised inode numbers, trailer;
+  * `decode_encode_ar`, `stream_roundtrip_ar` — ar members (SVR4 `name/`, BSD short and `#1/<len>` long names,
+    pad byte) and whole archives with the global header;
+  * `pax_len_fixed_point`, `paxRecords_roundtrip`, `pax_number_roundtrip`, `decode_encode_pax_partial` — the
+    record layer of pax extended headers, writer against the reader's parsing loop.
+Still specification level only (differential against `representable` / `norm`, no byte model): the pax writer's
+choice of attributes, its time-stamp text form and the ustar header it emits after the extended header; gnutar,
+v7tar, binary cpio, zip, 7zip, xar, iso9660, mtree, warc; the SVR4 ar filename table (`//`) and the ar symbol
+tables; write filters.
 -/
 import LA.Lemmas.UstarSpec
 import LA.Lemmas.Stream
@@ -19,6 +24,7 @@ import LA.Lemmas.CpioStreamOdc
 import LA.Lemmas.CpioAccept
 import LA.Lemmas.ArStream
 import LA.Lemmas.PaxParse
+import LA.Lemmas.UstarFixed
 import LA.Props.C10
 namespace LA.C02
 open LA.Codec LA.NumFmt
@@ -320,5 +326,40 @@ theorem decode_encode_pax_partial (path linkpath uname gname : List Nat) (uid gi
   simp only [attrs, List.mem_cons, List.mem_nil_iff, or_false] at hkv
   rcases hkv with rfl | rfl | rfl | rfl | rfl | rfl | rfl <;>
     exact ⟨by simp, by intro c hc; simp at hc; omega, by simp, hl⟩
+
+/-! ### the read-back form is a fixed point (ustar) -/
+
+/-- **`readback_fixed_point_ustar`**: take any entry the ustar writer accepts (outside the two recorded
+defects, `UstarEntryOK`), decode its 512-byte header with the reader, hand the decoded record back to
+the writer unchanged (`RB.toEntry`: what a client does when it copies an archive): the writer accepts
+it, and the new header decodes to *exactly the same record* — every field, the body length included.
+(The bytes of the two headers may differ, e.g. a hard link to a device loses its device numbers at
+the first read; the decoded records do not.) -/
+theorem readback_fixed_point_ustar (st : WState) (e : Entry) (b : List Nat) (st' : WState)
+    (hok : ustarWriteHeader st e = (.ok, b, st')) (hOK : UstarEntryOK e) :
+    ∃ rb rem, ustarDecode b false = some (rb, rem) ∧
+      ∃ b2 st2, ustarWriteHeader st' rb.toEntry = (.ok, b2, st2) ∧ ustarDecode b2 false = some (rb, rem) := by
+  obtain ⟨p0, hp, hnf, hb, _⟩ := ustarWriteHeader_ok st e b st' hok
+  obtain ⟨hwf, hlinks, hnotrail, hnodbl⟩ := hOK
+  obtain ⟨_, _, _, _, _, htype⟩ := ustarFailed_false e _ _ hnf
+  obtain ⟨t, ht⟩ := Option.isSome_iff_exists.1 htype
+  obtain ⟨⟨rb, rem⟩, hs⟩ := ustarSpecRB_isSome e (dirSlash e.ftype p0) t ht
+  have hdec := ustarDecode_ustarHdr e (dirSlash e.ftype p0) (ustarSize e) t
+    (wfStr_dirSlash e.ftype p0 (hwf.1 p0 hp)) (wfStr_tarLink e hwf) hwf.2.1 hwf.2.2.1 hnf ht
+    (fun kk hk => hnodbl p0 kk hp hk)
+  obtain ⟨h1, h2, h3, h4, h5⟩ := readback_fixed_point e p0 hp ⟨hwf, hlinks, hnotrail, hnodbl⟩ hnf t ht rb rem hs
+  refine ⟨rb, rem, by rw [hb, hdec, hs], ustarHdr rb.toEntry (dirSlash e.ftype p0) (ustarSize e),
+    { st' with remaining := (ustarSize e).toNat, padding := pad512 (ustarSize e).toNat }, ?_, h5⟩
+  unfold ustarWriteHeader
+  rw [h1]
+  simp only [h2]
+  have hsz : (if rb.toEntry.hard ≠ [] ∨ rb.toEntry.sym ≠ [] ∨ rb.toEntry.ftype ≠ .reg then (0 : Int) else rb.toEntry.sizeV)
+      = ustarSize e := by rw [← h3]; rfl
+  rw [hsz]
+  have hf : ¬ (ustarFormatHeader rb.toEntry (dirSlash e.ftype p0) (ustarSize e) none true).1 = true := by
+    have : (ustarFormatHeader rb.toEntry (dirSlash e.ftype p0) (ustarSize e) none true).1 = false := h4
+    rw [this]; simp
+  rw [if_neg hf]
+  rfl
 
 end LA.C02
